@@ -1,7 +1,11 @@
 (* Dcel/ProofsInsertTriangle.v -- insert_into_triangle (Gen/DcelOps.v, generated from
    dcel_operations.rs) preserves link-level well-formedness, with exact count deltas (C02). *)
+(* ROBUSTNESS AGAINST REORDERINGS OF THE GENERATED CODE.  The result is described by the closed form itt_result and
+   its pointwise lemmas R_*; the only contact with the generated chain of writes is itt_closed_form, proved by
+   extensionality (Dcel/Chain.v: ch_dcel_ext, ch_hedges_ext) with both sides read entry by entry -- the generated
+   side by ch_read, which peels the writes off in whatever order they come. *)
 From Coq Require Import ZArith List Bool Arith Lia.
-From SpadeV Require Import Obs.State Obs.Spec Obs.SpecProp Vmap.Model Dcel.Raw Dcel.WfCore Gen.DcelOps.
+From SpadeV Require Import Obs.State Obs.Spec Obs.SpecProp Vmap.Model Dcel.Raw Dcel.Chain Dcel.WfCore Gen.DcelOps.
 Import ListNotations.
 
 (* ------------------------------------------------------------------------------------------ *)
@@ -22,12 +26,6 @@ Lemma nth_set_nth_neq : forall {A} i j (x : A) l dd, i <> j -> nth j (set_nth i 
 Proof.
   intros A i j x l dd. revert i j. induction l as [|h t IH]; intros [|i] [|j] Hij; cbn [set_nth nth];
     try congruence; auto.
-Qed.
-
-Lemma set_nth_twice : forall {A} i (x y : A) l, set_nth i x (set_nth i y l) = set_nth i x l.
-Proof.
-  intros A i x y l. revert i. induction l as [|h t IH]; intros [|i]; cbn [set_nth]; auto.
-  f_equal. apply IH.
 Qed.
 
 (* ------------------------------------------------------------------------------------------ *)
@@ -104,38 +102,8 @@ Proof.
 Qed.
 
 (* ------------------------------------------------------------------------------------------ *)
-(* one-step forms of the Raw writes on an explicit record *)
-
 Lemma hrec_eta : forall h, h = mkh (h_next h) (h_prev h) (h_face h) (h_org h).
 Proof. intros [a b c o]. reflexivity. Qed.
-
-Lemma set_prev_mk : forall vs hs fs fl e x a b c o,
-  nth e hs dflt_h = mkh a b c o ->
-  set_prev (mkdcel vs hs fs fl) e x = mkdcel vs (set_nth e (mkh a x c o) hs) fs fl.
-Proof.
-  intros vs hs fs fl e x a b c o H. unfold set_prev, upd_h, half_edge.
-  cbn [d_verts d_hedges d_faces d_flags]. rewrite H. reflexivity.
-Qed.
-
-Lemma set_next_mk : forall vs hs fs fl e x a b c o,
-  nth e hs dflt_h = mkh a b c o ->
-  set_next (mkdcel vs hs fs fl) e x = mkdcel vs (set_nth e (mkh x b c o) hs) fs fl.
-Proof.
-  intros vs hs fs fl e x a b c o H. unfold set_next, upd_h, half_edge.
-  cbn [d_verts d_hedges d_faces d_flags]. rewrite H. reflexivity.
-Qed.
-
-Lemma set_face_mk : forall vs hs fs fl e x a b c o,
-  nth e hs dflt_h = mkh a b c o ->
-  set_face (mkdcel vs hs fs fl) e x = mkdcel vs (set_nth e (mkh a b x o) hs) fs fl.
-Proof.
-  intros vs hs fs fl e x a b c o H. unfold set_face, upd_h, half_edge.
-  cbn [d_verts d_hedges d_faces d_flags]. rewrite H. reflexivity.
-Qed.
-
-Lemma push_edge_mk : forall vs hs fs fl h0 h1,
-  push_edge (mkdcel vs hs fs fl) h0 h1 = mkdcel vs (hs ++ [h0; h1]) fs (fl ++ [false]).
-Proof. reflexivity. Qed.
 
 (* ------------------------------------------------------------------------------------------ *)
 (* closed form of the result *)
@@ -173,59 +141,6 @@ Hypothesis He2 : e2 < n.
 Hypothesis H01 : e0 <> e1.
 Hypothesis H02 : e0 <> e2.
 Hypothesis H12 : e1 <> e2.
-
-Ltac solve_nth :=
-  repeat (rewrite nth_set_nth_neq by assumption);
-  first [ rewrite nth_set_nth_eq by (rewrite ?set_nth_length; assumption); reflexivity
-        | apply hrec_eta ].
-
-Ltac step :=
-  match goal with
-  | |- context [set_prev (mkdcel ?vs ?hs ?fs ?fl) ?e ?x] =>
-      let H := fresh "Hn" in
-      eassert (H : nth e hs dflt_h = mkh _ _ _ _) by solve_nth;
-      rewrite (set_prev_mk vs hs fs fl e x _ _ _ _ H); clear H
-  | |- context [set_next (mkdcel ?vs ?hs ?fs ?fl) ?e ?x] =>
-      let H := fresh "Hn" in
-      eassert (H : nth e hs dflt_h = mkh _ _ _ _) by solve_nth;
-      rewrite (set_next_mk vs hs fs fl e x _ _ _ _ H); clear H
-  | |- context [set_face (mkdcel ?vs ?hs ?fs ?fl) ?e ?x] =>
-      let H := fresh "Hn" in
-      eassert (H : nth e hs dflt_h = mkh _ _ _ _) by solve_nth;
-      rewrite (set_face_mk vs hs fs fl e x _ _ _ _ H); clear H
-  end; rewrite ?set_nth_twice.
-
-Lemma itt_closed_form : insert_into_triangle d v f0 = (itt_result, nv).
-Proof.
-  assert (E3 : normalized (num_undirected_edges d) = n)
-    by (unfold normalized, num_undirected_edges; lia).
-  assert (E5 : normalized (num_undirected_edges d + 1) = n + 2)
-    by (unfold normalized, num_undirected_edges; lia).
-  assert (E7 : normalized (num_undirected_edges d + 2) = n + 4)
-    by (unfold normalized, num_undirected_edges; lia).
-  assert (E4 : e_rev n = n + 1).
-  { unfold e_rev. rewrite <- Heven. rewrite (Nat.mul_comm _ 2). apply rev_even. }
-  assert (E6 : e_rev (n + 2) = n + 3).
-  { unfold e_rev. rewrite <- Heven. replace (length (d_flags d) * 2 + 2) with (2 * (length (d_flags d) + 1)) by lia.
-    rewrite rev_even. lia. }
-  assert (E8 : e_rev (n + 4) = n + 5).
-  { unfold e_rev. rewrite <- Heven. replace (length (d_flags d) * 2 + 4) with (2 * (length (d_flags d) + 2)) by lia.
-    rewrite rev_even. lia. }
-  unfold insert_into_triangle. rewrite Hadj. unfold prim_panic.
-  cbv zeta.
-  rewrite E3, E5, E7, E4, E6, E8.
-  change (h_next (half_edge d e0)) with e1.
-  change (h_next (half_edge d e1)) with e2.
-  change (num_faces d) with nf. change (num_vertices d) with nv.
-  unfold push_face, push_vertex. cbn [d_verts d_hedges d_faces d_flags fst snd].
-  do 8 step.
-  rewrite !push_edge_mk.
-  unfold itt_result, itt_hedges.
-  f_equal. f_equal.
-  - rewrite <- !app_assoc. reflexivity.
-  - rewrite <- !app_assoc. reflexivity.
-  - rewrite <- !app_assoc. reflexivity.
-Qed.
 
 (* pointwise description of the closed form *)
 Let R := itt_result.
@@ -444,6 +359,61 @@ Lemma he_cases : forall x, x < n + 6 ->
   x = e0 \/ x = e1 \/ x = e2 \/ (x < n /\ x <> e0 /\ x <> e1 /\ x <> e2) \/
   x = n \/ x = n + 1 \/ x = n + 2 \/ x = n + 3 \/ x = n + 4 \/ x = n + 5.
 Proof. intros x Hx. lia. Qed.
+
+(* The generated function computes exactly the closed form.  The proof does NOT depend on the order of the
+   statements of the generated chain: the two dcels are compared table by table, and the half-edge table entry
+   by entry (ch_hedges_ext); the entry of the closed form is given by R_e0 ... R_n5 / R_other above, the entry
+   of the generated chain is evaluated by ch_read (Dcel/Chain.v), which peels the writes off in any order. *)
+Lemma itt_closed_form : insert_into_triangle d v f0 = (itt_result, nv).
+Proof using Hadj Heven He0 He1 He2 H01 H02 H12.
+  assert (E3 : normalized (num_undirected_edges d) = n)
+    by (unfold normalized, num_undirected_edges; lia).
+  assert (E5 : normalized (num_undirected_edges d + 1) = n + 2)
+    by (unfold normalized, num_undirected_edges; lia).
+  assert (E7 : normalized (num_undirected_edges d + 2) = n + 4)
+    by (unfold normalized, num_undirected_edges; lia).
+  assert (E4 : e_rev n = n + 1).
+  { unfold e_rev. rewrite <- Heven. rewrite (Nat.mul_comm _ 2). apply rev_even. }
+  assert (E6 : e_rev (n + 2) = n + 3).
+  { unfold e_rev. rewrite <- Heven. replace (length (d_flags d) * 2 + 2) with (2 * (length (d_flags d) + 1)) by lia.
+    rewrite rev_even. lia. }
+  assert (E8 : e_rev (n + 4) = n + 5).
+  { unfold e_rev. rewrite <- Heven. replace (length (d_flags d) * 2 + 4) with (2 * (length (d_flags d) + 2)) by lia.
+    rewrite rev_even. lia. }
+  assert (Hn : n = length (d_hedges d)) by reflexivity.
+  assert (Hnf : nf = length (d_faces d)) by reflexivity.
+  assert (Hnv : nv = length (d_verts d)) by reflexivity.
+  unfold insert_into_triangle. rewrite Hadj. unfold prim_panic.
+  cbv zeta.
+  rewrite E3, E5, E7, E4, E6, E8.
+  change (h_next (half_edge d e0)) with e1.
+  change (h_next (half_edge d e1)) with e2.
+  change (num_faces d) with nf. change (num_vertices d) with nv.
+  cbn [fst snd].
+  apply ch_pair_eq; [|reflexivity].
+  apply ch_dcel_ext.
+  - (* vertices: one push *)
+    ch_tables. reflexivity.
+  - (* half-edges: entry by entry *)
+    apply ch_hedges_ext.
+    + fold R. rewrite R_len. ch_len. lia.
+    + intros x Hx. fold R in Hx |- *. rewrite R_len in Hx.
+      destruct (he_cases x Hx) as [->|[->|[->|[(Hxn&N0&N1&N2)|[->|[->|[->|[->|[->| ->]]]]]]]]].
+      * rewrite R_e0. ch_fields; ch_read; reflexivity.
+      * rewrite R_e1. ch_fields; ch_read; reflexivity.
+      * rewrite R_e2. ch_fields; ch_read; reflexivity.
+      * rewrite R_other by assumption. ch_read. reflexivity.
+      * rewrite R_n0. ch_fields; ch_read; reflexivity.
+      * rewrite R_n1. ch_fields; ch_read; reflexivity.
+      * rewrite R_n2. ch_fields; ch_read; reflexivity.
+      * rewrite R_n3. ch_fields; ch_read; reflexivity.
+      * rewrite R_n4. ch_fields; ch_read; reflexivity.
+      * rewrite R_n5. ch_fields; ch_read; reflexivity.
+  - (* faces: two pushes *)
+    ch_tables. rewrite <- !app_assoc. reflexivity.
+  - (* flags: three pushes *)
+    ch_tables. rewrite <- !app_assoc. reflexivity.
+Qed.
 
 (* ------------------------------------------------------------------------------------------ *)
 (* well-formedness of the input, and the facts about the triangle e0 e1 e2 that follow from it *)
